@@ -40,8 +40,9 @@
      documented protocol (what a call does not consume is offered again): if the sequence of
      calls reports completion, then Spec.frame_decode accepts the input (checksums modulo
      skipChecksums as Spec's skip flag), the concatenation of the outputs of all calls is the
-     specified content and the total consumed is the length of the frame (or the bytes consumed
-     are a skippable frame and nothing was produced).
+     specified content and the total consumed is the length of the frame (or the input begins
+     with a skippable frame - magic 0x184D2A5x, 4-byte size n - nothing was produced and exactly
+     its 8 + n bytes were consumed).
    - C08_chunking_complete / C08_chunking_reaches / C08_chunking_independent: the converse.  On an
      input that Spec.frame_decode accepts with every checksum verified, from a context at the
      start of a frame, whatever the pieces, the capacities and skipChecksums: NO call fails; when
@@ -147,7 +148,8 @@ Theorem C08_chunking_sound : forall bdec o dict k s data ns caps content consume
   drive bdec o k s data ns caps [] 0 = VComplete content consumed ->
   zlen content < 18446744073709551616 ->
   (exists rest, frame_decode bdec (o_skip o) dict data = Some (content, rest) /\ consumed = zlen data - zlen rest)
-  \/ (content = [] /\ 4 <= consumed <= zlen data /\ Z.land (rd32 data) SKIP_MASK = FD_MAGIC_SKIPPABLE_START).
+  \/ (content = [] /\ Z.land (rd32 data) SKIP_MASK = FD_MAGIC_SKIPPABLE_START /\
+      consumed = 8 + rd32 (zdrop 4 data) /\ consumed <= zlen data).
 Proof. exact chunked_sound. Qed.
 Print Assumptions C08_chunking_sound.
 
@@ -183,7 +185,8 @@ Theorem C08_chunking_sound_usingDict : forall bdec o dict k s data ns caps conte
   drive_usingDict bdec dict o k s data ns caps [] 0 = VComplete content consumed ->
   zlen content < 18446744073709551616 ->
   (exists rest, frame_decode bdec (o_skip o) dict data = Some (content, rest) /\ consumed = zlen data - zlen rest)
-  \/ (content = [] /\ 4 <= consumed <= zlen data /\ Z.land (rd32 data) SKIP_MASK = FD_MAGIC_SKIPPABLE_START).
+  \/ (content = [] /\ Z.land (rd32 data) SKIP_MASK = FD_MAGIC_SKIPPABLE_START /\
+      consumed = 8 + rd32 (zdrop 4 data) /\ consumed <= zlen data).
 Proof. exact chunked_sound_usingDict. Qed.
 Print Assumptions C08_chunking_sound_usingDict.
 
@@ -276,6 +279,13 @@ Example C08_example_chunked_usingDict :
   drive_usingDict spec_decode dict (mkO false false false) 40 dctx_init data (repeat 1 40) (repeat 1 40) [] 0
   = VComplete [122; 5; 6; 7; 8; 33] (zlen data).
 Proof. vm_compute. split; reflexivity. Qed.
+
+(* a skippable frame (5 bytes of payload) in pieces of 3 bytes: nothing produced, 13 bytes consumed *)
+Example C08_example_chunked_skippable :
+  let data := [0x53; 0x2A; 0x4D; 0x18; 5; 0; 0; 0; 1; 2; 3; 4; 5; 4; 34; 77; 24] in
+  drive spec_decode (mkO false false false) 9 dctx_init data (repeat 3 9) (repeat 1 9) [] 0 = VComplete [] 13 /\
+  Z.land (rd32 data) SKIP_MASK = FD_MAGIC_SKIPPABLE_START /\ 8 + rd32 (zdrop 4 data) = 13.
+Proof. vm_compute. repeat split; reflexivity. Qed.
 
 Example C08_example_header :
   parse_desc [108; 64; 3; 0; 0; 0; 0; 0; 0; 0; 41]
